@@ -40,8 +40,11 @@ def all_aliases(call):
     return out
 
 
-def render(call):
-    """Selector text (all-parentheses spelling)."""
+def render(call, mixed=False):
+    """Selector text: all-parentheses spelling, or (mixed) with the last child of every call pulled
+    out of the parentheses with '>' (r(ctx, s1(..)) > s2 > v)."""
+    if mixed:
+        return _render_mixed(call)
     items = []
     for c in call.caps:
         t = ("!" if c.focus else "") + c.var
@@ -56,6 +59,31 @@ def render(call):
     for ch in call.children:
         items.append(render(ch))
     return f"{call.label}({', '.join(items)})"
+
+
+def _cap_text(c, bare=False):
+    t = ("!" if c.focus and not bare else "") + c.var
+    if c.alias != c.var:
+        t += f" as {c.alias}"
+    if c.cond:
+        if c.cond[0] == "=":
+            t += f"={c.cond[1]}"
+        else:
+            t += f"~{c.cond[1]}({', '.join(str(a) for a in c.cond[2])})"
+    return t
+
+
+def _render_mixed(call):
+    caps = list(call.caps)
+    kids = list(call.children)
+    tail = None
+    if kids:
+        tail = _render_mixed(kids.pop())
+    elif caps and caps[-1].focus:
+        tail = _cap_text(caps.pop(), bare=True)
+    items = [_cap_text(c) for c in caps] + [render(k) for k in kids]
+    head = call.label + (f"({', '.join(items)})" if items else "")
+    return head if tail is None else f"{head} > {tail}"
 
 
 class Index:
